@@ -702,7 +702,10 @@ class ActivityAnalyzer(transformer.Base):
     self._enter_scope(False)
     # try/except oddity: as expected, it leaks any names you defined inside the
     # except block, but not the name of the exception variable.
-    if node.name is not None:
+    if isinstance(node.name, str):
+      # In the standard ast module the handler name is a plain string.
+      self.scope.isolated_names.add(qual_names.QN(node.name))
+    elif node.name is not None:
       self.scope.isolated_names.add(anno.getanno(node.name, anno.Basic.QN))
     node = self.generic_visit(node)
     self._exit_scope()
